@@ -31,9 +31,14 @@ SHORT = {"eliminate_self_dependencies": "sd", "isolate_function_arguments": "fai
 
 HEADER = ("From Coq Require Import List ZArith String Bool.\nImport ListNotations.\n"
           "From Dagrt Require Import GenLang GenC07 Lang TestOracle LangCheck Sched SchedCheck Transform "
-          "TransformSem TransformCheck.\nOpen Scope string_scope.\nOpen Scope Z_scope.\n"
-          "Definition chk := chk7 lang_del_guarded lang_lhs_sub_reads lang_loop_bound_reads "
-          "c07_seed_node_vars c07_fci_passes_cond c07_ite_flag_first.\n")
+          "TransformSem TransformSide TransformCheck.\nOpen Scope string_scope.\nOpen Scope Z_scope.\n"
+          "Definition tie := chk7 lang_del_guarded lang_lhs_sub_reads lang_loop_bound_reads "
+          "c07_seed_node_vars c07_sd_sorted c07_fci_passes_cond c07_ite_flag_first.\n"
+          "Definition pres := pres7 lang_lhs_sub_reads lang_loop_bound_reads c07_seed_node_vars "
+          "c07_sd_sorted c07_fci_passes_cond c07_ite_flag_first fortran_pass_order.\n"
+          "Definition chk (c : case7) := tie c && pres c.\n"
+          "Definition nohyp (c : case7) := negb (hyp7 c).\n"
+          "Definition nohypp (c : case7) := negb (hypp7 c).\n")
 
 # adversarial name pools: user names that look like generated ones
 INTS = ["x", "y", "tmp", "tmp_0", "temp_y", "temp__state_u", "<state>u", "<p>n", "ifthenelse_result", "x_3", "y_07",
@@ -373,7 +378,12 @@ def exec_tree(t, store, funcs=None):
     real = tree_to_real(t)
     d = _d()
 
+    budget = [4000]          # statements executed per run (a generated loop bound may be huge)
+
     def leaf(stmt):
+        budget[0] -= 1
+        if budget[0] < 0:
+            raise _Stop(["crash", "Budget"])
         try:
             if interp.evaluate_condition(stmt):
                 res = getattr(interp, stmt.exec_method)(stmt)
@@ -426,6 +436,8 @@ def exec_tree(t, store, funcs=None):
                 raise _Stop(["crash", "user"])
             except Exception as ex:  # noqa: BLE001
                 raise _Stop(["crash", _exc_name(ex)])
+            if hi - lo > 4000:
+                raise _Stop(["crash", "Budget"])
             for i in rng:
                 ctx[n.loop_var_name] = i
                 walk(n.body)
@@ -445,7 +457,7 @@ def exec_tree(t, store, funcs=None):
 
 def in_universe(r):
     if r["status"][0] == "crash":
-        return r["status"][1] != "FloatingPointError:overflow"
+        return r["status"][1] not in ("FloatingPointError:overflow", "Budget")
     vals = list(r["store"].values()) + [e[2] for e in r["events"]] + [e[3] for e in r["events"]]
     for c in r["log"]:
         vals += c[1] + [v for _, v in c[2]]
@@ -506,6 +518,10 @@ def hoists_from_lazy(t, names):
             if "isolate_function_arguments" in names and lazy_positions(e, call_nonvar_args):
                 return "isolate_function_arguments"
             if "isolate_function_calls" in names and s["kind"][0] == "assign" and lazy_positions(e, is_call):
+                return "isolate_function_calls"
+            if "isolate_function_calls" in names and "isolate_function_arguments" in names \
+                    and s["kind"][0] == "call" and lazy_positions(e, is_call):
+                # the argument isolator first turns the argument into an assignment of its own
                 return "isolate_function_calls"
             if "expand_IfThenElse" in names and andor_tail_if(e):
                 return "expand_IfThenElse"
@@ -624,6 +640,8 @@ def sem_oracle(tin, tout, stores):
         if a["status"][0] == "crash":
             continue
         b = exec_tree(tout, st)
+        if b["status"] == ["crash", "Budget"]:
+            continue
         if b["status"][0] == "crash":
             return {"kind": "sem:crash", "store": st, "input_run": a, "output_run": b}
         if a["status"] != b["status"]:
@@ -1015,7 +1033,7 @@ def gen_cases(tier, seed):
         cases.append((t, [{"x": ["int", 2], "y": ["int", 1], "c": ["int", 1], "tmp": ["int", 7]},
                           {"x": ["int", -1], "y": ["int", 0], "c": ["int", 0]}], "exhaustive"))
         dist["exhaustive"] += 1
-    n = {"quick": (260, 220, 320), "thorough": (5000, 4000, 6000)}[tier if tier in ("quick", "thorough") else "quick"]
+    n = {"quick": (200, 170, 250), "thorough": (5000, 4000, 6000)}[tier if tier in ("quick", "thorough") else "quick"]
     streams = [("lowered_statements", lowered_from_statements, n[0]), ("lowered_builder", lowered_from_builder, n[1]),
                ("raw", None, n[2])]
     for name, fn, cnt in streams:
@@ -1258,16 +1276,21 @@ def first_bad_selection(t, stores, order):
     run_in = [exec_tree(t, st) for st in stores]
     tie = [i for i, a in enumerate(run_in) if in_universe(a)]
     st_t, in_t = [stores[i] for i in tie], [run_in[i] for i in tie]
-    bad, _, _ = common.eval_cases(PID + "x", HEADER, [case_term(t, ords, univ, st_t, in_t, [])], "chk")
+    bad, _, _ = common.eval_cases(PID + "x", HEADER, [case_term(t, ords, univ, st_t, in_t, [])], "pres")
+    if bad:
+        return {"part": "the input meets the pipeline side conditions (pipe_leaf) but an intermediate tree of the "
+                        "pipeline does not meet those of the pass applied to it (hypotheses of C07_pipeline_partial "
+                        "are not preserved)"}
+    bad, _, _ = common.eval_cases(PID + "x", HEADER, [case_term(t, ords, univ, st_t, in_t, [])], "tie")
     if bad:
         return {"part": "semantics of the input tree (tree executor vs TransformSem.run)", "impl_runs": in_t}
     for names in selections(order):
         res = run_passes(t, names)
         if res[0] != "ok" and res[1] not in EXC:
             continue
-        bad, _, _ = common.eval_cases(PID + "x", HEADER, [case_term(t, ords, univ, st_t, in_t, [(names, res, [])])], "chk")
+        bad, _, _ = common.eval_cases(PID + "x", HEADER, [case_term(t, ords, univ, st_t, in_t, [(names, res, [])])], "tie")
         model = common.eval_term(
-            HEADER, "run_passes lang_lhs_sub_reads lang_loop_bound_reads c07_seed_node_vars c07_fci_passes_cond "
+            HEADER, "run_passes lang_lhs_sub_reads lang_loop_bound_reads c07_seed_node_vars c07_sd_sorted c07_fci_passes_cond "
                     "c07_ite_flag_first [%s] [%s] %s" % (ords_coq(ords), "; ".join(lang.coq_str(n) for n in names),
                                                          tree_to_coq(t)))[-3000:]
         if bad:
@@ -1275,7 +1298,7 @@ def first_bad_selection(t, stores, order):
         if res[0] == "ok":
             outruns = [exec_tree(res[1], st) for st in st_t]
             bad, _, _ = common.eval_cases(PID + "x", HEADER,
-                                          [case_term(t, ords, univ, st_t, in_t, [(names, res, outruns)])], "chk")
+                                          [case_term(t, ords, univ, st_t, in_t, [(names, res, outruns)])], "tie")
             if bad:
                 return {"part": "semantics of the output tree (tree executor vs TransformSem.run)", "passes": names,
                         "impl_result": res, "impl_runs": outruns}
@@ -1312,7 +1335,7 @@ def main(tier):
 
     failing = {}
     known_hits = {}
-    terms, term_idx = [], []
+    terms, term_idx, hterms = [], [], []
     nontriv = set()
     n_runs = 0
     per_pass = {}
@@ -1355,6 +1378,7 @@ def main(tier):
                 key = (label, "exception:" + res[1])
                 failing.setdefault(key, (t, names, stores, {"kind": "exception:" + res[1]}))
         terms.append(case_term(t, ords, univ, [stores[i] for i in tie_stores], [run_in[i] for i in tie_stores], sels))
+        hterms.append(case_term(t, ords, [], [], [], []))
         term_idx.append(ci)
 
     for (who, kind), (t, names, o) in sorted(known_hits.items()):
@@ -1379,11 +1403,18 @@ def main(tier):
                        "replay": "./check C07 --replay <this file>"})
 
     mism, n_eval, errors = [], 0, []
+    n_hyp = n_hypp = None
     if os.path.exists(os.path.join(common.COQ, "model", "TransformCheck.vo")) and \
             os.path.exists(os.path.join(common.COQ, "gen", "GenC07.vo")):
-        bad, n_eval, errors = common.eval_cases(PID, HEADER, terms, "chk",
-                                                shard=max(20, -(-len(terms) // (2 * common.NPROC))))
+        shard = max(20, -(-len(terms) // (2 * common.NPROC)))
+        bad, n_eval, errors = common.eval_cases(PID, HEADER, terms, "chk", shard=shard)
         mism = [term_idx[i] for i in bad]
+        # how many cases meet the side conditions of all four per-pass theorems (negated checker: the
+        # indices that come back are the cases where hyp7 holds)
+        hyp_idx, _, herr = common.eval_cases(PID + "h", HEADER, hterms, "nohyp", shard=4 * shard)
+        n_hyp = len(hyp_idx) if not herr else None
+        hypp_idx, _, herr2 = common.eval_cases(PID + "h", HEADER, hterms, "nohypp", shard=4 * shard)
+        n_hypp = len(hypp_idx) if not herr2 else None
     else:
         errors = ["model not built"]
     tie_broken = bool(mism or errors)
@@ -1419,6 +1450,11 @@ def main(tier):
         samples=[{"input": describe(cases[i][0]), "origin": cases[i][2]} for i in
                  (0, len(cases) // 2, len(cases) - 1)],
         known_finding_hits=len(known_hits),
+        cases_meeting_all_theorem_side_conditions=n_hyp,
+        cases_meeting_pipeline_side_conditions=n_hypp,
+        side_conditions_preserved_along_pipeline="checked inside Coq on every case meeting the pipeline side "
+                                                 "conditions (pres7); a failure counts as a model/implementation "
+                                                 "disagreement",
     )
     rep.assumptions = [
         "A1 value semantics of arrays", "A2 user functions are pure (the call log is compared as a multiset)",
